@@ -1,6 +1,7 @@
 (* wire decoding / encoding for the C10 correspondence run.
-   input:  L [axis; L [table; ...]]   (first table = the receiver)
-   output: L [I 0; table]  |  L [I (-1); I code] *)
+   input:  L [axis; L [table; ...]; L [other receiver; ...]]   (first table = the receiver)
+   output: L [result; L [result with the i-th other receiver in place of the receiver; ...]]
+   result: L [I 0; table]  |  L [I (-1); I code] *)
 From Coq Require Import List ZArith Bool.
 From BiomV Require Import Base.Tree Model.Table Model.Orient Model.Concat.
 Import ListNotations.
@@ -8,4 +9,5 @@ Import ListNotations.
 Definition run (t : Tree) : Tree :=
   let a := tAxis (tnth t 0) in
   let ts := map tTable (tL (tnth t 1)) in
-  eResult eTable (concat_t ts a).
+  L [eResult eTable (concat_t ts a);
+     L (map (fun b => eResult eTable (concat_t (tTable b :: tl ts) a)) (tL (tnth t 2)))].
